@@ -141,6 +141,10 @@ def run(tier):
     else:
         scheds += gen("RouterGen", {"R": 4, "MaxLen": 9, "Faults": "{}"}, simulate=4000, depth=12)
     scheds = list({json.dumps(s): s for s in scheds}.values())
+    # many requests in flight at once: stream ids far beyond the first bitmap words must stay distinct on the wire
+    nbulk = 6000 if thorough else 2600
+    scheds.append([["B", 1, nbulk], ["Y", 0], ["C", 7], ["C", 2050], ["RA", 0], ["Y", 0]])
+    scheds.append([["B", 1, 300], ["Y", 0], ["RA", 0], ["Y", 0], ["B", 301, 300], ["Y", 0], ["RA", 0], ["Y", 0]])
     ntr = 0
     for coal in (True, False):
         sub = scheds if coal else rnd.sample(scheds, min(len(scheds), 3000))
